@@ -987,6 +987,7 @@ func runC11(c *Ctx) {
 			continue
 		}
 		var store *ssa.Store
+		resolve := func(v ssa.Value) ssa.Value { return v }
 		eachInstr(mClose, func(i ssa.Instruction) {
 			if s, ok := i.(*ssa.Store); ok {
 				if fa, ok := s.Addr.(*ssa.FieldAddr); ok && recvPath(fa) == "Latencies."+f.Name() {
@@ -994,6 +995,14 @@ func runC11(c *Ctx) {
 				}
 			}
 		})
+		if store == nil {
+			// assigned through a row of a literal table walked by a loop
+			for _, vs := range tableStores(mClose) {
+				if fa, ok := vs.Target.(*ssa.FieldAddr); ok && recvPath(fa) == "Latencies."+f.Name() {
+					store, resolve = vs.Store, vs.resolve
+				}
+			}
+		}
 		if store == nil {
 			c.Fail(key, r2, f.Name()+" is never assigned in Close", c.fnAt(mClose))
 			continue
@@ -1003,7 +1012,7 @@ func runC11(c *Ctx) {
 			c.Fail(key, r2, f.Name()+" is not assigned from Quantile", c.at(store))
 			continue
 		}
-		qc, ok := call.Call.Args[1].(*ssa.Const)
+		qc, ok := resolve(call.Call.Args[1]).(*ssa.Const)
 		q := math.NaN()
 		if ok && qc.Value != nil {
 			q, _ = constant.Float64Val(constant.ToFloat(qc.Value))
